@@ -103,6 +103,16 @@ class Check:
             self.broken.append(("translator", "extract", out[-2000:]))
         # generators that must be COMPILED against the current tree (they execute the source's own definitions)
         for g in self.cfg.get("generate_with", []):
+            if g.startswith("tools/"):
+                # stand-alone analysis tools (own Go module under /verif/tools; they LOAD the current tree with go/packages)
+                g = g[len("tools/"):]
+                with Lock("gobuild"):
+                    rc, out = sh(["go", "build", "-o", os.path.join(BIN, g), "."], cwd=os.path.join(ROOT, "tools", g), env=GOENV)
+                if rc == 0:
+                    rc, out = sh([os.path.join(BIN, g), "--repo", REPO, "--out", os.path.join(LEAN, "BandVerif", "Generated")], env=GOENV)
+                if rc != 0:
+                    self.broken.append(("translator", g, out[-2000:]))
+                continue
             with Lock("gobuild"):
                 rc, out = sh(["go", "build", "-tags", "verif", "-o", os.path.join(BIN, g), "./cmd/" + g], cwd=HARNESS, env=GOENV)
             if rc == 0:
@@ -311,6 +321,56 @@ class Check:
             flush()
         return dict(cases=cases, distinct=len(seen), distinct_nontrivial=nontriv)
 
+    def rerun_identical(self, results):
+        """Execution-determinism oracle: other properties' harnesses (whose traces record full module state after every
+        real begin/end-block or message) are run twice with the same seed in two processes; Go randomises map iteration
+        per range statement and per process, so state that depends on it makes the two traces differ."""
+        found = []
+        specs = self.cfg.get("rerun_identical", {}).get(self.tier, [])
+        if not specs:
+            return found
+
+        def one(spec):
+            h = spec["harness"]
+            with Lock("gobuild"):
+                rc, out = sh(["go", "build", "-tags", "verif", "-o", os.path.join(BIN, h), "./cmd/" + h], cwd=HARNESS, env=GOENV)
+            if rc != 0:
+                return (spec, None, "build: " + out[-800:])
+            paths = []
+            for k in ("a", "b"):
+                tpath = os.path.join(self.rundir, f"rerun-{h}-{k}.jsonl")
+                if os.path.exists(tpath):
+                    os.remove(tpath)
+                try:
+                    rc, out = sh([os.path.join(BIN, h), "--seed", str(self.seed), "--tier", "quick", "--out", tpath, "--stats", os.devnull] + spec.get("args", []),
+                                 cwd=self.rundir, env=dict(GOENV, GOMEMLIMIT="12GiB"), timeout=1500)
+                except subprocess.TimeoutExpired:
+                    rc, out = 124, "timeout"
+                if rc != 0:
+                    return (spec, None, f"harness exit {rc}: {out[-600:]}")
+                paths.append(tpath)
+            with open(paths[0]) as fa, open(paths[1]) as fb:
+                n = 0
+                for n, (la, lb) in enumerate(zip(fa, fb), 1):
+                    if la != lb:
+                        return (spec, dict(line=n, a=la[:3000], b=lb[:3000], traces=paths, lines=n), None)
+                if fa.readline() or fb.readline():
+                    return (spec, dict(line=n + 1, a="<length differs>", b="<length differs>", traces=paths, lines=n), None)
+            return (spec, dict(line=0, lines=n, traces=paths), None)
+
+        with ThreadPoolExecutor(max_workers=self.cfg.get("parallel", 4)) as ex:
+            outs = list(ex.map(one, specs))
+        self.rerun_summary = []
+        for spec, d, err in outs:
+            if err:
+                self.broken.append(("correspondence", f"rerun {spec['harness']}", err)); continue
+            self.rerun_summary.append(dict(harness=spec["harness"], args=spec.get("args", []), lines=d["lines"], identical=(d["line"] == 0)))
+            if d["line"]:
+                r = dict(seed=self.seed, args=spec.get("args", []), trace=d["traces"][0])
+                found.append((r, d["line"], "same_inputs_different_execution",
+                              json.dumps(dict(harness=spec["harness"], first_differing_line=d["line"], run_a=d["a"], run_b=d["b"]))))
+        return found
+
     # ---- 5. decide
     def write_replay(self, name, payload):
         os.makedirs(os.path.join(ROOT, "replays"), exist_ok=True)
@@ -361,6 +421,7 @@ class Check:
                 self.broken.append(("correspondence", f"DIFF line {line} seed {r['seed']}", d))
             for (line, d) in r["errors"]:
                 self.broken.append(("correspondence", f"ERROR line {line} seed {r['seed']}", d))
+        new_mon += self.rerun_identical(results)
         search_runs = 0
         if not new_mon and self.broken and cfg.get("harness") and self.harness_ok and self.driver_ok:
             # something no longer checks: search for a concrete failing input with the wide generators
@@ -443,6 +504,7 @@ class Check:
             "generated_from_source": cfg.get("extract", []),
             "source_sha256_16": self.source_hashes(),
             "explanation": cfg.get("explanation", ""),
+            "rerun_identical": getattr(self, "rerun_summary", []),
         }
         ev = {
             "property_id": self.pid, "tier": self.tier, "seed": self.seed, "level": cfg.get("level", "proof"),
@@ -459,6 +521,14 @@ def replay(pid, path):
     if rp.get("kind") != "failing-input":
         print(json.dumps(rp, indent=1)); return 0
     c.regenerate(); c.prove(); c.build_harness()
+    if rp.get("monitor") == "same_inputs_different_execution":
+        h = json.loads(rp["detail"])["harness"]
+        c.cfg["rerun_identical"] = {c.tier: [x for t in c.cfg.get("rerun_identical", {}).values() for x in t if x["harness"] == h][:1]}
+        found = c.rerun_identical([])
+        for f in found:
+            print("MONITOR", f[1], f[2], f[3][:600])
+        print("reproduced" if found else "not reproduced")
+        return 1 if found else 0
     r = c.run_one(rp["seed"], rp["args"], "replay")
     hit = [m for m in r["monitors"] if m[1] == rp["monitor"]]
     for m in r["monitors"][:10]:
